@@ -28,7 +28,7 @@ PALETTE = [0, 0, 0.1, 1 / 3., 0.5, 0.7, 1]
 
 def gates(tier):
     return {'calls': 5000, 'graded_calls': 3500, 'error_expected': 400, 'surplus_cases': 500, 'missing_cases': 500,
-            'multi_alternative_cases': 1000, 'permutation_sets': 100, 'nested_cases': 150, 'nested_error_expected': 8, 'nested_message_checks': 40, 'inferred_cases': 150,
+            'multi_alternative_cases': 1000, 'permutation_sets': 100, 'nested_cases': 150, 'dense_table_calls': 12000, 'nested_error_expected': 8, 'nested_message_checks': 40, 'inferred_cases': 150,
             'message_expected': 300, 'partial_credit_false_cases': 800}
 
 
@@ -218,6 +218,34 @@ def run_main(ctx):
                     break
 
 
+def run_dense(ctx):
+    """Unordered lists of 4-6 expected and 4-7 submitted items with DENSE fractional item credits: the assignment must be an
+    optimal one (rare solver faults only show on such tables)."""
+    from mitxgraders import SingleListGrader
+    rng = ctx.rng
+    for i in range(ctx.n(16000, 300000)):
+        n = rng.randint(4, 6)
+        k = rng.randint(4, 7)
+        exp_items = ['e%d' % a for a in range(n)]
+        sub_items = ['s%d' % b for b in range(k)]
+        pal = rng.choice([[0, 0.25, 0.5, 0.75, 1], [0, 0.5, 1], [0.1 * q for q in range(11)]])
+        table = {(e, s_): rng.choice(pal) for e in exp_items for s_ in sub_items}
+        g = SingleListGrader(answers=exp_items, subgrader=lib.TableGrader(table=table, ids=False), ordered=False)
+        out = lib.call(ctx, g, None, ', '.join(sub_items))
+        ctx.ev()
+        ctx.count('calls')
+        ctx.count('dense_table_calls')
+        C = [[table[(e, s_)] for s_ in sub_items] for e in exp_items]
+        frac, _ = listmodel.single_list_credit(C, n, k, False, True)
+        if i % 40 == 0:
+            ctx.nontrivial(['dense', C])
+        if not out.returned:
+            ctx.violation('C07:unordered:raises', repr(out.exc), {'credits': C})
+        elif abs(out.value['grade_decimal'] - frac) > 1e-9:
+            ctx.violation('C07:unordered:grade', 'grade %r, documented formula gives %r' % (out.value['grade_decimal'], frac),
+                          {'credits_expected_by_submitted': C, 'outcome': out.brief()})
+
+
 def run_forms(ctx):
     """String-form answers, inferred expect, nesting."""
     from mitxgraders import SingleListGrader, StringGrader
@@ -351,5 +379,6 @@ def run_forms(ctx):
 
 
 def run(ctx):
+    run_dense(ctx)
     run_main(ctx)
     run_forms(ctx)
